@@ -617,7 +617,7 @@ fn drive_pos(ctx: &mut Ctx, desc: &str, nonempty: bool, f: &dyn Fn() -> Result<(
 macro_rules! for_ns {
     ($ctx:expr, [$($n:ty),*], [$($tn:ty),*], $N:ident => $body:block) => {
         $( { type $N = $n; $body } )*
-        if $ctx.thorough() || $ctx.only.is_some() { $( { type $N = $tn; $body } )* }
+        { $( { type $N = $tn; $body } )* }
     };
 }
 
